@@ -683,6 +683,14 @@ def run(out):
                 % (len(small), 2 if quick else 3, len(more)))
     from props import c10_copy
     ncopy = c10_copy.run(out, rng)
+    # the queue the backends feed from their callback threads (mido/backends/_parser_queue.py): several threads in put_bytes, one polling
+    from props import threads_extra
+    nq, exq, npq, fq = threads_extra.pqueue_scenarios(quick)
+    out.evaluations += nq
+    out.components['ParserQueue fed from several threads (scheduled, implementation against the statement)'] = {
+        'cases': nq, 'programs': npq, 'programs_with_all_schedules_within_the_preemption_bound': exq, 'oracle_failures': len(fq)}
+    for f in fq[:10]:
+        out.failures.append((f[0], f[1], {'component': 'parser-queue-threads'}))
     out.rule += (' Copies: %d histories of creating, editing, sending, receiving and editing again on every port kind (EchoPort by receive / poll / iter_pending, IOPort over one '
                  'EchoPort and over an input and an output joined by a cable, MultiPort fan-in with and without yield_ports, MultiPort fan-out to 1-3 sub-ports) against the '
                  'heap model SendCopy.v and the statement (value at send time, identity).' % ncopy)
